@@ -4,7 +4,7 @@
  *  VSHIM_LOG=<file>       append one line per state-changing call: "<n> <call> <path> [<args>] = <ret>"
  *  VSHIM_ROOT=<prefix>    only paths under this prefix are numbered / logged / faulted
  *  VSHIM_FAIL=<call>:<substr>:<k>:<errno>   fail the k-th (1-based) call of that kind (pread|pwrite|open|fsync|ftruncate|
- *                         fallocate|rename) on a path containing <substr> with errno; several separated by ','
+ *                         fallocate|rename) on a path containing <substr> with errno (k = 0: every call); several separated by ','
  *  VSHIM_KILL=<n>[:before|after|short]   kill the process (SIGKILL) at the n-th numbered state-changing call
  *  VSHIM_KILL_ON=<call>:<substr>:<k>[:before|after]   kill at the k-th numbered call of that kind on a path containing <substr>
  *  VSHIM_TIME=<epoch>     time() returns this value (plus the seconds elapsed since the first call if VSHIM_TIME_RUN=1)
@@ -86,7 +86,7 @@ static int should_fail(const char *call, const char *path)
 	pthread_mutex_lock(&mu);
 	for (i = 0; i < nfails; ++i)
 		if (!strcmp(fails[i].call, call) && strstr(path, fails[i].sub)) {
-			if (++fails[i].seen == fails[i].k) r = fails[i].err;
+			if (fails[i].k == 0 || ++fails[i].seen == fails[i].k) r = fails[i].err;   /* k = 0: every call */
 		}
 	pthread_mutex_unlock(&mu);
 	return r;
